@@ -425,6 +425,30 @@ func (g *Gen) isFlagChan(ch ssa.Value) bool {
 	return g.cs.FlagChans[key]
 }
 
+// flagSignal: for a channel loaded from a field declared `flagchan T.f signals Pred`: the predicate name, the owning
+// object's SSA value and its package.
+func (g *Gen) flagSignal(ch ssa.Value) (string, ssa.Value, *types.Package) {
+	u, ok := ch.(*ssa.UnOp)
+	if !ok {
+		return "", nil, nil
+	}
+	fa, ok := u.X.(*ssa.FieldAddr)
+	if !ok {
+		return "", nil, nil
+	}
+	pt := fa.X.Type().Underlying().(*types.Pointer).Elem()
+	n, ok := pt.(*types.Named)
+	if !ok {
+		return "", nil, nil
+	}
+	st := pt.Underlying().(*types.Struct)
+	key := n.Obj().Pkg().Path() + "|" + n.Obj().Name() + "." + st.Field(fa.Field).Name()
+	if p := g.cs.FlagSignals[key]; p != "" {
+		return p, fa.X, n.Obj().Pkg()
+	}
+	return "", nil, nil
+}
+
 func (g *Gen) noteCall(x *Exec, tgt *target, in ssa.Instruction) {
 	if g.curEffects != nil && x.discovery == 0 {
 		g.curEffects.callees = append(g.curEffects.callees, tgt.display)
@@ -541,8 +565,18 @@ func (g *Gen) resolve(x *Exec, cc *ssa.CallCommon) *target {
 		}
 	}
 	if e, ok := v.(*ssa.Extract); ok {
-		_ = e
 		tg.display = "dynamic " + v.Name()
+		// a function value that is one of the results of a statically known function: contract `func result <callee>`
+		if c, ok := e.Tuple.(*ssa.Call); ok {
+			if f, ok := c.Call.Value.(*ssa.Function); ok {
+				if f.Pkg != nil && inModule(f.Pkg.Pkg) {
+					tg.display = "result " + relName(f)
+					tg.pkg = f.Pkg.Pkg
+				} else {
+					tg.display = "result " + f.String() // e.g. the cancel function of context.WithTimeout
+				}
+			}
+		}
 	}
 	pp := ""
 	if tg.pkg != nil {
